@@ -211,6 +211,38 @@ def gen_position_cases(rng, names, n):
         out.append(dict(world=w, opts=o, pos_classes=cls))
     return out
 
+# ------------------------------------------------------------------ reference FASTA case (generator dimension)
+# The statement is case-insensitive: a soft-masked (lower-case) genome FASTA denotes the same reference.  The case is
+# applied by the implementation-side script to the written FASTA only; all ground truth stays upper-case.
+def gen_genome_case(rng, w, p_any=0.4):
+    x = rng.random()
+    if x > p_any:
+        return None
+    if x < 0.25 * p_any:
+        return {'all': True}
+    masks = {}
+    def add(ch, a, b):
+        n = len(w['chroms'][ch])
+        masks.setdefault(ch, []).append([max(0, a), min(n, b)])
+    if x < 0.5 * p_any:                                    # whole gene loci inside a masked repeat
+        for g in w['genes']:
+            if rng.random() < 0.7:
+                add(g['chrom'], g['start'] - rng.randint(0, 5), g['end'] + rng.randint(0, 5))
+        return {'all': False, 'masks': masks}
+    for g in w['genes']:                                   # stretches over start / Sec / random codons of the transcripts
+        for t in g['transcripts']:
+            pts = []
+            if t.get('cds'):
+                pts.append(t['cds'][0]); pts.append(max(t['cds'][0], t['cds'][1] - 3))
+            pts += list(t.get('sec', []))
+            L = G.tx_len(t)
+            pts += [rng.randrange(0, L) for _ in range(rng.randint(0, 2))]
+            for q in pts:
+                if rng.random() < 0.6 and 0 <= q < L:
+                    gp = G.tx2g(g, t, q)
+                    add(g['chrom'], gp - rng.randint(0, 6), gp + rng.randint(1, 8))
+    return {'all': False, 'masks': masks}
+
 # ------------------------------------------------------------------ model side
 def tx_rows(w):
     rows, ids = [], []
@@ -431,15 +463,15 @@ def shrink(ctx, case, same_class):
         for gi, g in enumerate(w['genes']):
             if len(w['genes']) > 1:
                 w2 = copy.deepcopy(w); del w2['genes'][gi]
-                cands.append(dict(world=w2, opts=cur['opts']))
+                cands.append(dict(cur, world=w2))
             for ti in range(len(g['transcripts'])):
                 if len(g['transcripts']) > 1:
                     w2 = copy.deepcopy(w); del w2['genes'][gi]['transcripts'][ti]
-                    cands.append(dict(world=w2, opts=cur['opts']))
+                    cands.append(dict(cur, world=w2))
         for key, val in (('w2f', False), ('inclusion', None), ('exclusion', None), ('k', 0)):
             if cur['opts'].get(key) != val:
                 o2 = dict(cur['opts']); o2[key] = val
-                cands.append(dict(world=cur['world'], opts=o2))
+                cands.append(dict(cur, opts=o2))
         if not cands:
             break
         rs = evaluate(ctx, cands, tag='c08s')
@@ -490,6 +522,9 @@ def run(ctx):
     cases += seeded
     posc = gen_position_cases(rng, names, 200 if ctx.quick else 5000)
     cases += posc
+    for c in cases[len(corp):]:
+        if 'genome_case' not in c:
+            c['genome_case'] = gen_genome_case(rng, c['world'])
     results = evaluate(ctx, cases)
     # how much work the clause "minus the canonical pool" does on the collision stream (measured, for the evidence)
     collide = measure_collisions(seeded[:200 if ctx.quick else 1500])
@@ -540,6 +575,7 @@ def run(ctx):
                 distribution=dist, failures=sum(1 for r in results if r['probs']),
                 streams={'random_worlds+option_corners': len(cases) - len(seeded) - len(posc), 'canonical_collision': len(seeded),
                          'atg_stop_position_classes': len(posc)},
+                genome_case=_hist(['upper' if not c.get('genome_case') else ('all_lower' if c['genome_case'].get('all') else 'soft_masked_stretches') for c in cases]),
                 position_classes=_hist([k for c in posc for k in c.get('pos_classes', [])]),
                 canonical_collision_stream=collide,
                 bracket_slack={'output_minus_MUST': slack_low, 'MAY_minus_output': slack_high, 'total_output': tot_out,
